@@ -41,7 +41,71 @@ PROPS = {
     },
 }
 
+_HIST_RULE = (
+    "one evaluation = one seeded history of 4-{n} public operations (46 kinds; per-run random subset and "
+    "weights, swarm-chosen model of 2-6 metabolites / 3-10 reactions, solver interface, invalid-argument "
+    "probability) applied to live models (up to 3 actors) and, step by step, to an executable reference "
+    "model; oracles of this property run after every step. distinct = distinct digests of (operation list, "
+    "per-step content digests); non-trivial = at least one operation changed the observable state."
+)
+_HIST_COMPONENTS = {"real": REAL + ["optlang temp-file copy of the GLPK problem"],
+                    "stub": ["cobra.core.object.Object.__hash__ (seeded)", "uuid.uuid1 in optlang.interface (counter)",
+                             "numpy global RNG (owned, seeded)", "Configuration() singleton (reset per run)"]}
+_HIST_ASSUME = [
+    "generated numbers are short decimals/small integers/+-1000/+-inf so float arithmetic in the reference is "
+    "bit-identical and GLPK's 15-digit text format used by copy/pickle is lossless",
+    "after an operation that raised, the reference content is resynchronised from the observed model (no property "
+    "promises atomic failures for models); invariants keep full strength",
+    "no solver call is issued while a reaction without metabolites exists (GLPK aborts the process, H-01)",
+    "a reaction referenced by a live user constraint is never removed (optlang, not cobrapy, fails there, H-02)",
+]
+
+
+def _hist(pid, quick, thorough, text, note, ref, probes=(), max_steps=30):
+    return {
+        "engine": "hist", "level": "exploration", "quick_runs": quick, "thorough_runs": thorough,
+        "quick_wall_cap": 600, "thorough_wall_cap": 3300,
+        "run_cfg": {"max_steps": max_steps, "run_timeout": 60},
+        "rule": _HIST_RULE.format(n=max_steps), "assumptions": _HIST_ASSUME, "components": _HIST_COMPONENTS,
+        "probes": list(probes), "level_text": text, "design_ref": ref, "level_note": note,
+        "technique": "deterministic simulation: seeded operation/fault histories vs. executable reference model",
+    }
+
+
+PROPS["C01"] = _hist(
+    "C01", 4000, 120000,
+    "Seeded search over histories of public operations (incl. failing ones, contexts, copies, pickles, solver switches); "
+    "after every step the raw GLPK problem is read back with swiglpk and must equal the flux-balance problem of the "
+    "Python-side model plus the reference list of explicitly user-added rows/columns.",
+    "Sampled histories on small generated networks; both GLPK interfaces; oracle independent of optlang's Python caches.",
+    "4 (C01)", probes=["context_enter", "nested_context", "new_actor", "copy_inside_context"])
+PROPS["C02"] = _hist(
+    "C02", 4000, 120000,
+    "Every operation is also applied to an executable reference model written from the docstrings; content must be equal "
+    "after every operation judged P, identity-level cross-reference invariants after every operation incl. failing ones.",
+    "Sampled histories; operations whose documentation does not determine the result are judged by invariants only "
+    "(counts of P/I judgements are in the evidence).", "4 (C02)")
+PROPS["C03"] = _hist(
+    "C03", 4000, 120000,
+    "Histories with nested `with model:` blocks (depth <= 4), failing operations and exception exits inside blocks; the full "
+    "snapshot (content, cross-references, objective, raw LP) taken at __enter__ must equal the one after the matching __exit__, "
+    "and __exit__ must not raise.",
+    "Sampled histories; only operations the documentation calls reversible are executed inside blocks.", "4 (C03)",
+    probes=["context_enter", "nested_context", "context_exit_checked", "exit_replays_10+_undo_entries"])
+PROPS["C07"] = _hist(
+    "C07", 4000, 120000,
+    "Knock-out heavy histories (Gene.knock_out, knock_out_model_genes by object/id/index, Reaction.knock_out, functional flags, "
+    "rule edits, contexts) judged against truth tables over the generator's own rule trees (never cobrapy's parser).",
+    "Sampled histories; rules are random and/or trees of depth <= 3 over <= 6 shared genes.", "4 (C07)")
+PROPS["C12"] = _hist(
+    "C12", 3000, 90000,
+    "Several live models (original, copy, deepcopy, unpickled) with interleaved histories: equality incl. raw LP at creation, "
+    "distinct objects, and after every step the full snapshot of every model not operated on must be bit-identical to before.",
+    "Sampled two/three-actor schedules; in-place edits of notes/annotation dictionaries are part of the operation set.", "4 (C12)",
+    probes=["new_actor", "copy_inside_context", "detached_object"])
+
 ENGINES = {
+    "hist": "seeded histories of public model operations on up to 3 live models vs. RefModel, raw-GLPK read-back, context/copy/restart operations",
     "dlist": "seeded DictList operation histories vs. plain-list reference (failing operations are the faults)",
 }
 
